@@ -366,7 +366,11 @@ where
         let membership_rx = node.membership_change_notifier();
 
         let read_handle =
-            EmbeddedReadHandle::new(sm_for_client, node.read_lease(), node.cmd_tx.clone());
+            EmbeddedReadHandle::new(sm_for_client, node.read_lease(), node.cmd_tx.clone())
+                .with_read_config(
+                    node.node_config.raft.read_consistency.default_policy.clone(),
+                    node.node_config.raft.read_consistency.allow_client_override,
+                );
 
         let client = {
             let base = EmbeddedClient::new_internal(
